@@ -231,6 +231,14 @@ class Index:
 
                 _canon0.canonicalise_idioms(tree)
                 self._fresh.append((rel, tree))
+                if _reference_digest(rel) != hashlib.sha1(src.encode()).hexdigest():
+                    ref_imports = (_REFNAMES or {}).get(f"#imports:{rel}")
+                    if ref_imports:
+                        try:
+                            for line in _canon0.normalise_imports(tree, _collect_imports(tree, _modname(rel), rel.endswith("__init__.py")), ref_imports, frozenset((_REFNAMES or {}).get(f"#qualified:{rel}", ()))):
+                                NORMALISED.append(f"{rel}: {line}")
+                        except Exception:  # noqa: BLE001 -- a normalisation problem must never break the analysis
+                            pass
         mod = ModuleInfo(relpath=rel, modname=_modname(rel), tree=tree, source=src)
         mod.quiet = getattr(reuse, "quiet", None)
         if reuse is not None:
